@@ -1,0 +1,27 @@
+//go:build verif
+
+package p2p
+
+// Hooks for the runtime monitors in /verif (compiled only with -tags verif): the two gossip
+// verifiers and their digest functions, which are unexported.
+
+import (
+	node_common "github.com/alephium/wormhole-fork/node/pkg/common"
+	gossipv1 "github.com/alephium/wormhole-fork/node/pkg/proto/gossip/v1"
+	"github.com/ethereum/go-ethereum/common"
+	"github.com/libp2p/go-libp2p/core/peer"
+)
+
+func VerifProcessSignedHeartbeat(from peer.ID, s *gossipv1.SignedHeartbeat, gs *node_common.GuardianSet, gst *node_common.GuardianSetState, disableVerify bool) (*gossipv1.Heartbeat, error) {
+	return processSignedHeartbeat(from, s, gs, gst, disableVerify)
+}
+
+func VerifProcessSignedObservationRequest(s *gossipv1.SignedObservationRequest, gs *node_common.GuardianSet) (*gossipv1.ObservationRequest, error) {
+	return processSignedObservationRequest(s, gs)
+}
+
+func VerifHeartbeatDigest(b []byte) common.Hash { return heartbeatDigest(b) }
+
+func VerifSignedObservationRequestDigest(b []byte) common.Hash {
+	return signedObservationRequestDigest(b)
+}
